@@ -1,6 +1,5 @@
-import MwVerif.Model.Uniq
+import MwVerif.Lemmas.Uniq.RoundTrip
 import MwVerif.Gen.TagNames
-import Std.Data.String.ToNat
 /-!
 # C09 — opaque tags stay opaque (protect / restore)
 
@@ -16,86 +15,19 @@ is matched by `replace_uniq`'s `[a-z0-9]+`), and non-empty. -/
 theorem c09_tag_names_alnum :
     Gen.TagNames.names.all (fun n => !n.isEmpty && n.all isLowerAlnum) = true := by decide +kernel
 
-theorem natToStr_inj {a b : Nat} (h : natToStr a = natToStr b) : a = b := by
-  unfold natToStr at h
-  exact Nat.repr_injective (String.toList_inj.mp h)
-
-
-theorem natToStr_digits (n : Nat) : ∀ c ∈ natToStr n, isDigit c = true := by
-  intro c hc
-  have h : c ∈ Nat.toDigits 10 n := by
-    simpa [natToStr, toString, Nat.repr] using hc
-  have := Nat.isDigit_of_mem_toDigits (by decide) (by decide) h
-  simp only [Char.isDigit, Bool.and_eq_true, decide_eq_true_eq] at this
-  simp only [isDigit, Bool.and_eq_true, decide_eq_true_eq]
-  exact ⟨Char.le_def.mpr (by simpa using this.1), Char.le_def.mpr (by simpa using this.2)⟩
-
-theorem natToStr_ne_nil (n : Nat) : natToStr n ≠ [] := by
-  intro h
-  have : natToStr n = natToStr n := rfl
-  have h0 : (toString n).toList = [] := h
-  have : toString n = "" := by
-    apply String.toList_inj.mp; simpa using h0
-  have h2 := congrArg String.length this
-  simp [toString] at h2
-
-/-- `takeWhile`/`dropWhile` on a run followed by a separator outside the class. -/
-theorem takeWhile_run (p : Char → Bool) (run rest : Str) (sep : Char) (h : ∀ c ∈ run, p c = true)
-    (hs : p sep = false) : (run ++ sep :: rest).takeWhile p = run ∧ (run ++ sep :: rest).dropWhile p = sep :: rest := by
-  induction run with
-  | nil => simp [List.takeWhile, List.dropWhile, hs]
-  | cons c run ih =>
-    have hc := h c (by simp)
-    have := ih (fun x hx => h x (by simp [hx]))
-    simp [List.takeWhile, List.dropWhile, hc, this]
-
-theorem stripPrefix_append (a b : Str) : stripPrefix a (a ++ b) = some b := by
-  induction a with
-  | nil => rfl
-  | cons c a ih => simp [stripPrefix, ih]
-
-theorem runThen_run (p : Char → Bool) (run : Str) (sep : Char) (seprest rest : Str)
-    (h : ∀ c ∈ run, p c = true) (hne : run ≠ []) (hs : p sep = false) :
-    runThen p (sep :: seprest) (run ++ (sep :: seprest) ++ rest) = some (run, rest) := by
-  unfold runThen
-  have := takeWhile_run p run (seprest ++ rest) sep h hs
-  simp only [List.append_assoc, List.cons_append] at this ⊢
-  rw [this.1, this.2]
-  have hne' : run.isEmpty = false := by cases run <;> simp_all
-  simp only [hne', Bool.false_eq_true, if_false]
-  have := stripPrefix_append (sep :: seprest) rest
-  simp only [List.cons_append] at this
-  rw [this]; rfl
-
 /-- C09: the restorer recognises exactly the marker the protector writes — for every tag name
 made of lower-case letters and digits (all registered names are: `c09_tag_names_alnum`), every
 region number and every hexadecimal random string, whatever follows. -/
 theorem c09_marker_recognised (rand name : Str) (n : Nat) (rest : Str)
     (hname : ∀ c ∈ name, isLowerAlnum c = true) (hn0 : name ≠ [])
     (hrand : ∀ c ∈ rand, isHex c = true) (hr0 : rand ≠ []) :
-    matchMarker (marker rand name n ++ rest) = some (marker rand name n, rest) := by
-  unfold matchMarker marker
-  have e1 : ([del] ++ "UNIQ-".toList ++ name ++ ['-'] ++ natToStr n ++ ['-'] ++ rand ++ "-QINU".toList ++ [del] ++ rest)
-      = ([del] ++ "UNIQ-".toList) ++ (name ++ ['-'] ++ (natToStr n ++ ['-'] ++ (rand ++ ("-QINU".toList ++ [del]) ++ rest))) := by
-    simp [List.append_assoc]
-  rw [e1, stripPrefix_append]
-  simp only
-  rw [runThen_run isLowerAlnum name '-' [] _ hname hn0 (by decide)]
-  simp only
-  rw [runThen_run isDigit (natToStr n) '-' [] _ (natToStr_digits n) (natToStr_ne_nil n) (by decide)]
-  simp only
-  have : ("-QINU".toList ++ [del]) = '-' :: ("QINU".toList ++ [del]) := by decide
-  rw [this, runThen_run isHex rand '-' _ rest hrand hr0 (by decide)]
+    matchMarker (marker rand name n ++ rest) = some (marker rand name n, rest) :=
+  marker_recognised rand name n rest hname hn0 hrand hr0
 
-/-- markers of different regions differ (same process, same tag name or not). -/
+/-- markers of different regions differ. -/
 theorem c09_marker_injective (rand name : Str) (a b : Nat)
-    (h : marker rand name a = marker rand name b) : a = b := by
-  unfold marker at h
-  simp only [List.append_assoc, List.append_cancel_left_eq] at h
-  have h2 : natToStr a ++ ('-' :: (rand ++ ("-QINU".toList ++ [del]))) = natToStr b ++ ('-' :: (rand ++ ("-QINU".toList ++ [del]))) := by
-    simpa using h
-  have := List.append_cancel_right h2
-  exact natToStr_inj this
+    (h : marker rand name a = marker rand name b) : a = b :=
+  marker_injective_same_name rand name a b h
 
 /-- no character of a marker is one the template tokenizer splits on or the wikitext scanner gives a
 meaning to: a marker cannot be cut in two or be taken for markup. -/
@@ -124,5 +56,70 @@ theorem c09_marker_inert (rand name : Str) (n : Nat)
     simp only [List.mem_cons, List.mem_nil_iff, or_false] at this
     rcases this with h | h | h | h | h <;> subst h <;> decide
   · subst hc; decide
+
+
+/-! ### the round trip -/
+
+/-- **C09 round trip.** For every text without U+007F: protecting the opaque regions and restoring
+them gives the text written back piece by piece — every kept character as it was, every comment
+replaced by its newline/blank remainder, every protected region by its `complete` text (the whole
+tag, or the bare body for `<nowiki>`) — for any set of alphanumeric tag names and any hexadecimal
+random string.  No marker is left behind, none is confused with another. -/
+theorem c09_roundtrip (cfg : Cfg) (hn : NamesOk cfg) (hf : FoldOk cfg)
+    (hrand : ∀ c ∈ cfg.rand, isHex c = true) (hr0 : cfg.rand ≠ []) (s : Str) (hs : ∀ c ∈ s, c ≠ del) :
+    replaceUniq (replaceTags cfg s).table (replaceTags cfg s).text = direct (segs cfg s.length s) := by
+  rw [replaceTags_eq]
+  unfold replaceUniq
+  exact restore_pieces cfg.rand hrand hr0 (segs cfg s.length s) (segs_ok cfg hn hf s.length s hs)
+    (segs cfg s.length s) [] rfl _ (Nat.le_refl _)
+
+/-- … and the pieces stand for the whole input in order (`consumed`): outside comments and regions
+nothing is touched, and a region's record keeps the raw text it stands for. -/
+theorem c09_pieces_cover_input (cfg : Cfg) (s : Str) : consumed (segs cfg s.length s) = s :=
+  consumed_segs cfg s.length s (Nat.le_refl _)
+
+/-- a text without comments and registered tags is returned unchanged by the round trip: every piece
+is a kept character. -/
+theorem c09_identity_on_plain (cfg : Cfg) (s : Str)
+    (h : ∀ seg ∈ segs cfg s.length s, ∃ c, seg = .plain c) : direct (segs cfg s.length s) = s := by
+  have hc := c09_pieces_cover_input cfg s
+  revert hc h
+  generalize segs cfg s.length s = ss
+  intro h hc
+  rw [← hc]
+  clear hc
+  induction ss with
+  | nil => rfl
+  | cons seg ss ih =>
+    obtain ⟨c, rfl⟩ := h seg (by simp)
+    simp only [direct, consumed]
+    rw [ih (fun x hx => h x (by simp [hx]))]
+
+/-- the generated configuration satisfies the hypotheses of the round trip. -/
+theorem c09_generated_names_ok (rand : Str) :
+    NamesOk { names := Gen.TagNames.names, isSpace := Gen.TagNames.isSpace, fold := Gen.TagNames.fold,
+              lower := Gen.TagNames.lower, rand := rand } := by
+  intro n hn
+  have h := List.all_eq_true.mp c09_tag_names_alnum n hn
+  simp only [Bool.and_eq_true, Bool.not_eq_true', List.all_eq_true] at h
+  exact ⟨h.2, by intro he; simp [he] at h⟩
+
+theorem c09_generated_fold_ok (rand : Str) :
+    FoldOk { names := Gen.TagNames.names, isSpace := Gen.TagNames.isSpace, fold := Gen.TagNames.fold,
+             lower := Gen.TagNames.lower, rand := rand } := by
+  intro c hc
+  show Gen.TagNames.fold c = lowerAscii c
+  unfold Gen.TagNames.fold lowerAscii
+  split
+  · rfl
+  · have hall : Gen.TagNames.foldTable.all (fun p => decide (128 ≤ p.1)) = true := by decide +kernel
+    cases hfind : Gen.TagNames.foldTable.find? (fun p => p.1 = c.toNat) with
+    | none => rfl
+    | some p =>
+      have hm := List.mem_of_find?_eq_some hfind
+      have h1 := List.all_eq_true.mp hall p hm
+      have h2 := List.find?_some hfind
+      simp only [decide_eq_true_eq] at h1 h2
+      omega
 
 end MwVerif.Uniq
